@@ -87,7 +87,7 @@ CLAIMS = {
         text='PARTIAL. Decides protocol conformance of the rewrite system only: every override and every dynamic call site of the swap-rule protocol declared in evaluable.Array (and of _simplified, _derivative, '
              '_compile_with_out, ...) agrees in arity with the declaration, no _take/_takediag/_inflate rule hands its own axis parameters to the user-facing helper of the same name (different axis convention), and the '
              'fixed-point driver keeps its shape/dtype assertion, loop detection and memoisation. A mismatch is an exception or a transposed result the moment that pair of node kinds meets at depth >= 3, so the clauses are '
-             'necessary; termination and value preservation of the ~20 rules per class are NOT decided - no static argument in reach bounds the values over the unbounded term algebra. Also decided (R01.5): binary swap rules that merge two nodes equate the control operand they keep (Choose.index, Inflate.dofmap, LoopSum.index) and a foreign operand enters a loop body only if it is independent of that loop index (capture avoidance); (R01.6) the iszero/isunit guards of rewrite rules test operands that simplification can decide (a guard over `a % b` is dead because Mod never folds constants).',
+             'necessary; termination and value preservation of the ~20 rules per class are NOT decided - no static argument in reach bounds the values over the unbounded term algebra. Also decided (R01.5): binary swap rules that merge two nodes equate the control operand they keep (Choose.index, Inflate.dofmap, LoopSum.index) and a foreign operand enters a loop body only if it is independent of that loop index (capture avoidance); (R01.6) the iszero/isunit guards of rewrite rules test operands that simplification can decide (a guard over `a % b` is dead because Mod never folds constants). Also: independence tests that license moving parts out of a loop are universal; rewrites fire on certain, not merely possible, equality of run-time lengths; the integer ranges that license integer rewrites are sound for the elementary and index-producing nodes (= C06 R06.4).',
         note='Trusts: CPython ast; name-based MRO of the class model; the table of public-vs-protocol helper pairs confirmed by reading.',
         design='DESIGN.md section 2, C01'),
     'C04': dict(
@@ -95,7 +95,7 @@ CLAIMS = {
         text='PARTIAL. Decides the derivative tables: each Pointwise.deriv entry equals, in polynomial normal form, the textbook partial derivative of the NumPy function the class emits (and the class emits the function its '
              'name promises); the einsum patterns and signs of Multiply, Power, Inverse, Determinant, Product, Legendre, TransformCoords, Polyval and the chain rule equal the matrix-calculus patterns up to renaming; zero '
              'rules, memo and shape assertion of the driver; linear structural nodes act on the right axis of the derivative. A wrong table entry is a wrong Jacobian for every input, also where the suite\'s symmetric test '
-             'matrices hide it; chain-rule plumbing through loops/Custom/user operations and numerical accuracy are NOT decided. Terms of one product/power rule must be summed in one expression per branch, and derivatives accumulated over arguments must be added, not overwritten; Monomial._derivative scatters through the row-major flat index (symbolic execution).',
+             'matrices hide it; chain-rule plumbing through loops/Custom/user operations and numerical accuracy are NOT decided. Terms of one product/power rule must be summed in one expression per branch, and derivatives accumulated over arguments must be added, not overwritten; Monomial._derivative scatters through the row-major flat index (symbolic execution). The derivative memo is only handed on by _derivative rules with their own target.',
         note='Trusts: CPython ast; oracles/calculus.json (textbook calculus); the normal-form algebra is one-sided: an unforeseen but correct spelling (a trig identity) would be reported, accepted alternatives are listed in the oracle.',
         design='DESIGN.md section 2, C04'),
     'C02': dict(
@@ -120,7 +120,7 @@ CLAIMS = {
         text='PARTIAL. Decides the consumers of inferred integer ranges: at every return that drops an InRange/Mod/Minimum/Maximum/NormDim node (or licenses singular_like, index-ness, non-negative exponents, uniform '
              'constants) the path condition implies, by transitive closure with strictness, the inequality that makes the dropped node the identity; the elementary transfer functions equal interval arithmetic; every '
              'compiled field is an announced dependency; isconstant/arguments overrides are conservative. Soundness of the ~25 non-elementary transfer functions, shape/dtype of every node class and function.Array '
-             'metadata are NOT decided (they need evaluation of the functions, concretely or symbolically - another technique family). The table of elementary transfer functions includes the index-producing nodes (SearchSorted, ArgSort, Find, Range); announced argument tables of the function-level wrappers are computed from the parsed replacement pairs.',
+             'metadata are NOT decided (they need evaluation of the functions, concretely or symbolically - another technique family). The table of elementary transfer functions includes the index-producing nodes (SearchSorted, ArgSort, Find, Range); announced argument tables of the function-level wrappers are computed from the parsed replacement pairs. Announced integer ranges are computed only from the dependencies of the value; rewrites that keep the announced shape fire on certain equality of run-time lengths only.',
         note='Trusts: CPython ast; the meaning of each dropped node (index in [0,length), a mod b = a, ...); guards written in other algebraic spellings than comparisons of lo/hi terms are not understood and would be reported.',
         design='DESIGN.md section 2, C06'),
     'C05': dict(
@@ -128,7 +128,7 @@ CLAIMS = {
         text='PARTIAL (narrow). Decides that the final merge of the sparse form takes indices and inverse from one unique(..., return_inverse=True) over all parts, unravels the returned indices from that unique flat index with '
              'the same lengths (reversed) that flattened them, inflates the values over that inverse, that unique() wires sorter/mask/inverse consistently, and that the CSR tuple order (values, rowptr, colidx, ncols) agrees '
              'between evaluable.as_csr, matrix.assemble_csr/assemble_block_csr and function.as_csr. These are what make index tuples unique, sorted and decodable; the index arithmetic of each _assparse override, which is '
-             'where values and positions are computed, is NOT decided, except: the flattening and unravel loops of Array.assparse are executed symbolically (row-major, mutually inverse for 1..4 axes), and two clauses added after seeds: the stride vector of Inflate._assparse is row-major (symbolic evaluation), and Multiply._assparse keeps its factor clusters axis-disjoint.',
+             'where values and positions are computed, is NOT decided, except: the flattening and unravel loops of Array.assparse are executed symbolically (row-major, mutually inverse for 1..4 axes), and two clauses added after seeds: the stride vector of Inflate._assparse is row-major (symbolic evaluation), and Multiply._assparse keeps its factor clusters axis-disjoint. _assparse gathers the chunks of every occurrence of the operands (multiset).',
         note='Trusts: CPython ast; anchored on the current shape of Array.assparse (ANALYSIS-ERROR if refactored beyond recognition).',
         design='DESIGN.md section 2, C05'),
     'C07': dict(
@@ -136,7 +136,7 @@ CLAIMS = {
         text='PARTIAL. Decides dispatch-table agreement for the 42 table-shaped of 81 NumPy registrations: the chain numpy.f -> function-level implementation -> evaluable wrapper/constructor -> emitted NumPy expression has, '
              'as a normal form over the operands (separately for complex operands where the wrapper branches on dtype), the meaning NumPy documents for f; min_dtype/force_dtype realise NumPy\'s result kind class; comparisons '
              'reject complex, logical operations decline non-booleans; the NEP-13/18 hooks consult the table; operators come from NumPy\'s mixin. A wrong table entry is wrong at every point of every sample; broadcasting, '
-             'indexing, reshape, einsum, linear algebra and lowering with point axes (the composite implementations) are NOT decided. Also decided: linear-algebra wrappers announce an inexact kind; the dispatch layer never writes into caller-owned arrays; slice bounds are normalised with Python semantics in both layers; dot, matmul and vdot compare the operand shapes before their broadcasting product; every _Transpose is constructed from normalised, permutation-checked axes; shape preconditions that a wrapped evaluable node only asserts (det, inv, eig, eigh, searchsorted) are tested by the wrapping implementation; interp compares the lengths of xp and fp; the subscript loop is checked for joint treatment of index arrays (known finding F20: it applies them one by one); element kinds that a wrapped node only asserts (choose selector, index arrays, det/inv operands) are tested first; NumPy\'s boolean special cases (absolute, contractions, mask subscripts) are honoured.',
+             'indexing, reshape, einsum, linear algebra and lowering with point axes (the composite implementations) are NOT decided. Also decided: linear-algebra wrappers announce an inexact kind; the dispatch layer never writes into caller-owned arrays; slice bounds are normalised with Python semantics in both layers; dot, matmul and vdot compare the operand shapes before their broadcasting product; every _Transpose is constructed from normalised, permutation-checked axes; shape preconditions that a wrapped evaluable node only asserts (det, inv, eig, eigh, searchsorted) are tested by the wrapping implementation; interp compares the lengths of xp and fp; the subscript loop is checked for joint treatment of index arrays (known finding F20: it applies them one by one); element kinds that a wrapped node only asserts (choose selector, index arrays, det/inv operands) are tested first; NumPy\'s boolean special cases (absolute, contractions, mask subscripts) are honoured. dot, matmul and vdot contract the axis carrying the contracted length of both operands and return NumPy\'s shape for 20 operand-dimension cases (labelled-shape interpretation); build-time divisions by axis lengths exclude zero first.',
         note='Trusts: CPython ast; oracles/numpy_api.json (documented NumPy semantics and result kinds); the normal-form algebra (one-sided: unforeseen correct spellings would be reported).',
         design='DESIGN.md section 2, C07'),
     'C09': dict(
@@ -144,7 +144,7 @@ CLAIMS = {
         text='PARTIAL (narrow). Decides that all members of the product sample decompose the element index with the same divisor and stride points by the same factor, that all members of the union sample split and shift by '
              'the first part\'s element/point counts, that _Integral.lower takes weights, lower args and the reduction from one loop index and contracts weights with the integrand over the point axes, and that every concrete '
              'sample either implements the four accessors or integrates by delegation. Disagreement between siblings makes integrate != sum(w f) for nested samples; Gauss tables, exactness degrees, point containment and '
-             'trimmed mosaics are numerical tables and are NOT decided. Also decided: a composite sample never hands its raw element index to a component accessor, and transformed points scale weights by the absolute determinant.',
+             'trimmed mosaics are numerical tables and are NOT decided. Also decided: a composite sample never hands its raw element index to a component accessor, and transformed points scale weights by the absolute determinant. TensorPoints enumerates coordinates, weights and triangulation with the same slow factor; getpoints changes the requested degree only under the bezier scheme test.',
         note='Trusts: CPython ast; the member names of sample._Mul/_Add/_Integral as read today.',
         design='DESIGN.md section 2, C09'),
 }
